@@ -1,7 +1,7 @@
 """Frame contract for uberjob/_rendering.render (property C13): render never modifies the Plan / graph it is given.
 
-The caller's graph is handed to the real ``render`` as a READ-ONLY proxy around a real MultiDiGraph: every query is
-delegated, every mutating method (add_node, add_edge(s_from), remove_node(s_from), remove_edge(s_from), clear, update,
+The caller's graph ITSELF is handed to the real ``render``, watched (its class is swapped for a subclass of its own class, so it stays a
+real networkx graph for every reader, nxv included): every mutating method (add_node, add_edge(s_from), remove_node(s_from), remove_edge(s_from), clear, update,
 and attribute writes through .nodes[..]) is a failed obligation ``frame:<operation>``; ``copy()`` returns an ordinary
 independent copy, which render may change freely.  The check is parametric in the graph (the mutating call sites are
 reached for any plan with scoped nodes when ``level`` is given, and for any plan when a predicate is given); it is run on
@@ -31,37 +31,29 @@ def render_frame_unit(ctx):
     rendering = importlib.import_module("uberjob._rendering")
     violations = []
 
-    class Frozen:
-        """read-only view of the caller's graph"""
+    def guard(real_graph):
+        """the caller's graph ITSELF, watched: its class is swapped for a subclass of its own class whose mutating methods record the call (a real
+        networkx graph in every other respect, so whoever only reads it - nxv included - sees no difference); copies are plain graphs"""
+        base = type(real_graph)
 
-        def __init__(self, g):
-            object.__setattr__(self, "_g", g)
-
-        def __getattr__(self, name):
-            if name in MUTATORS:
-                def bad(*a, **k):
-                    violations.append(name)
-                    return getattr(self._g.copy(), name)(*a, **k)
-                return bad
-            return getattr(self._g, name)
-
-        def __setattr__(self, k, v):
-            violations.append("setattr:" + k)
-
-        def __iter__(self):
-            return iter(self._g)
-
-        def __len__(self):
-            return len(self._g)
-
-        def __contains__(self, n):
-            return n in self._g
-
-        def __getitem__(self, n):
-            return self._g[n]
+        def mk(name):
+            def method(self, *a, **k):
+                violations.append(name)
+                return getattr(base, name)(self, *a, **k)
+            return method
 
         def copy(self, *a, **k):
-            return self._g.copy(*a, **k)
+            self.__class__ = base
+            try:
+                return self.copy(*a, **k)
+            finally:
+                self.__class__ = Guarded
+
+        ns = {name: mk(name) for name in MUTATORS if hasattr(base, name)}
+        ns["copy"] = copy
+        Guarded = type("Guarded" + base.__name__, (base,), ns)
+        real_graph.__class__ = Guarded
+        return real_graph
 
     which = ctx.choose(3, "plan")
     plan = uberjob.Plan()
@@ -77,28 +69,22 @@ def render_frame_unit(ctx):
         with plan.scope("u"):
             plan.lit(5)
     level = [None, 0, 1, 2][ctx.choose(4, "level")]
-    pred = (lambda u, d: type(u).__name__ == "Call") if ctx.choose(2, "predicate") == 1 else None
+    class FalsySelection(frozenset):
+        """a predicate that is a callable OBJECT and falsy (an empty 'nodes to hide' selection): ``if predicate:`` is not ``if predicate is not None:``"""
+
+        def __call__(self, u, d):
+            return type(u).__name__ == "Call" and u not in self
+
+    pk = ctx.choose(3, "predicate")
+    pred = None if pk == 0 else (lambda u, d: type(u).__name__ == "Call") if pk == 1 else FalsySelection()
     form = ctx.choose(3, "argument-form")
     real_graph = plan.graph
     snap = (list(real_graph.nodes(data=True)), [(id(u), id(v), repr(k)) for u, v, k in real_graph.edges(keys=True)], [(id(n), n.scope) for n in real_graph.nodes()])
-    frozen = Frozen(real_graph)
-    plan.graph = frozen
-    arg = plan if form == 0 else frozen if form == 1 else (plan, a)
+    guarded = guard(real_graph)
+    arg = plan if form == 0 else guarded if form == 1 else (plan, a)
     env = base_env(REL, keep=("Plan", "Graph", "Node", "Scope", "default_style", "Registry", "Dependency", "Call", "Literal"))
     env["validation"] = importlib.import_module("uberjob._util.validation")
-    if form == 1:
-        env["Graph"] = (env.get("Graph"), Frozen)  # isinstance(plan, (Plan, Graph)) must accept the read-only view of a bare graph
     f = get(REL, "render", native_loops="all", cut_comps=False).compile_into(env)
-    if form == 1:
-        # validation.assert_is_instance(plan, "plan", (Plan, Graph)) builds the tuple itself
-        env["Graph"] = type("GraphOrFrozen", (), {"__instancecheck__": None})
-        import networkx as nx
-
-        class _Meta(type):
-            def __instancecheck__(cls, inst):
-                return isinstance(inst, (nx.MultiDiGraph, Frozen))
-
-        env["Graph"] = _Meta("Graph", (), {})
     kind, val = _catch(ctx, lambda: f(arg, level=level, predicate=pred, format="svg"))
     ctx.check("render-succeeds-on-this-plan", bool(kind == "ret"), info=repr(val)[:300])
     ctx.check("frame:the-caller's-graph-is-never-mutated(only-its-copy-is)", bool(not violations), info=f"mutating operations on the caller's graph: {violations}")
@@ -114,7 +100,9 @@ def snap(plan):
     return ([(id(n), type(n).__name__, n.scope) for n in g.nodes()], sorted((id(u), id(v), repr(k)) for u, v, k in g.edges(keys=True)))
 bad = []
 for level in (None, 0, 1, 2):
-    for pred in (None, lambda u, d: type(u).__name__ == "Call"):
+    class FalsySelection(frozenset):           # a falsy callable object as predicate
+        def __call__(self, u, d): return type(u).__name__ == "Call"
+    for pred in (None, lambda u, d: type(u).__name__ == "Call", FalsySelection()):
         plan = uberjob.Plan()
         a = plan.call(lambda: 1)
         with plan.scope("s"):
